@@ -140,6 +140,43 @@ def sc_recovery(cancelable):
             "0 root z 7a 2 0 1", "0 child1 y 79 z", "0 scope y", "0 localEnter 6c", "0 close", "0 close", "0 drop y", "0 drop z", "0 cycle", "0 cycle", "0 stats"]
 
 
+def sc_cancel_split(k):
+    """cancel() and the root's finish are parked on a full queue (in that order); a further plain submission fails
+    while both are parked; after the queue has drained the parked signals are replayed by the next send, and a
+    collector cycle falls before the k-th ring push of that send.  The cancel must still reach the collector no
+    later than the finish: nothing of the trace may be reported.  (cycleAtPush / inlineReport: implementation only)"""
+    return ["0 spawn", "0 setReporter 1", "0 touch", "0 root r 72 1 0 1", "0 child1 b 62 r", "0 drop b", "0 child1 d 64 r", "0 cycle",
+            "0 spam %d" % CAP, "0 cancel r", "0 drop r", "0 drop d", "0 cycle",
+            "0 cycleAtPush %d" % k, "0 root z 7a 2 0 1", "0 inlineReport", "0 child1 y 79 z", "0 drop y", "0 drop z", "0 cycle", "0 cycle", "0 stats"]
+
+
+def sc_start_parked(cancelable):
+    """a trace is started on a thread whose queue is full (the start may be lost, C09) and its root is finished on
+    another thread; whatever happens to the trace, once everything has been consumed the collector retains nothing"""
+    return ["0 spawn", "1 spawn", "0 setReporter %d" % cancelable, "0 touch", "1 touch", "1 spam %d" % CAP,
+            "1 root r 72 1 0 1", "0 drop r", "0 cycle", "1 root z 7a 2 0 1", "1 drop z", "0 cycle", "0 cycle", "0 stats"]
+
+
+def run_scenarios(v, scen, with_model=True, jobs=2):
+    """runs directed scenarios on the implementation (and the model), applies `check_scenarios`"""
+    import seqrun
+    tags = list(scen)
+    s_impl = seqrun.run_impl([scen[t] for t in tags], jobs=jobs)
+    for tag, bad in check_scenarios({t: (scen[t], s_impl[i]) for i, t in enumerate(tags)})[:2]:
+        prog = scen[tag] if len(scen[tag]) < 80 else scen[tag][:60] + ["…"] + scen[tag][-8:]
+        v.violation(bad, {"program": prog, "scenario": tag, "stream": "wild", "implementation_transcript_tail": [seqrun.strip_times(x)[:300] for x in s_impl[tags.index(tag)][-8:]]})
+    if with_model and not v.violations:
+        s_model = seqrun.run_model([scen[t] for t in tags])
+        for i, t in enumerate(tags):
+            k = seqrun.first_mismatch(s_impl[i], s_model[i]) if s_model else None
+            if k is not None:
+                v.violation("scenario %s: model/implementation correspondence broken at %r" % (t, scen[t][k] if k < len(scen[t]) else "<end>"),
+                            {"scenario": t, "program": scen[t][:80], "line": k}, found_input=False, tag="corr-scen")
+                break
+    v.coverage.setdefault("scenarios", [])
+    v.coverage["scenarios"] += tags
+
+
 def names_in(tr):
     return [r["name"] for _, r in tr.delivered()]
 
@@ -160,6 +197,15 @@ def check_scenarios(impl_by_tag):
                 f.append("default configuration: the child finished before the episode must be delivered exactly once: %s" % n)
             if sorted(x for x in n if x in "zy") != ["y", "z"]:
                 f.append("default configuration: trace started after the episode not complete: %s" % n)
+        if tag.startswith("cancel-split"):
+            bad = [x for x in n if x in ("r", "b", "c", "d")]
+            if bad:
+                f.append("records %s of the cancelled trace were delivered: the parked cancel reached the collector after the parked finish" % bad)
+            if sorted(x for x in n if x in "zy") != ["y", "z"]:
+                f.append("the trace started after the queue had drained was not delivered completely: %s" % n)
+        if tag.startswith("start-parked"):
+            if sorted(x for x in n if x == "z") != ["z"]:
+                f.append("the trace started after the queue had drained was not delivered: %s" % n)
         if tag.startswith("finish-on-full"):
             if n.count("c") != 1:
                 f.append("child finished before the episode must be delivered with its trace once the parked commit arrives: %s" % n)
